@@ -124,6 +124,7 @@ type CheckRun struct {
 	SolverS   float64
 	ByBackend map[string]int
 	LoopCounts map[string]int
+	ParamNames map[string][]string
 	Fallback  []string // functions whose deductive proof was lost and replaced by the bounded fallback
 }
 
@@ -182,6 +183,11 @@ func runCheck(prop, tier string, rebaseline bool) int {
 	}
 	ld.bindSpecial()
 	run.Assume = specs.Assumes
+	if !rebaseline {
+		loadPinnedTables()
+	} else {
+		pinnedLoops, pinnedParams = map[string]int{}, map[string][]string{}
+	}
 
 	var smtObls []*Obligation
 	usedExt := map[string]bool{}
@@ -231,6 +237,14 @@ func runCheck(prop, tier string, rebaseline bool) int {
 			run.LoopCounts = map[string]int{}
 		}
 		run.LoopCounts[name] = len(e.analyzeLoops(fn, nil))
+		if run.ParamNames == nil {
+			run.ParamNames = map[string][]string{}
+		}
+		var pn []string
+		for _, p := range fn.Params {
+			pn = append(pn, p.Name())
+		}
+		run.ParamNames[name] = pn
 		e.verifyFunction(fn, sp)
 		for _, er := range e.errs {
 			run.Errs = append(run.Errs, er)
@@ -503,6 +517,49 @@ func boundedFallback(run *CheckRun, ld *Loaded, specs *SpecDB, prop, tier string
 // loop clauses are keyed by loop ordinal, so they are anchored only while that number is unchanged
 var pinnedLoops map[string]int
 
+// pinnedParams: parameter names (receiver first) each function under contract had when the baseline was taken.
+// Contracts name parameters as the pinned tree does; they are bound by position, so that renaming a
+// parameter in the code does not detach the contract.
+var pinnedParams map[string][]string
+
+func loadPinnedTables() {
+	base := loadBaseline()
+	pinnedLoops = map[string]int{}
+	for _, kv := range base["#loops"] {
+		if i := strings.LastIndex(kv, "="); i > 0 {
+			n, _ := strconv.Atoi(kv[i+1:])
+			pinnedLoops[kv[:i]] = n
+		}
+	}
+	pinnedParams = map[string][]string{}
+	for _, kv := range base["#params"] {
+		if i := strings.Index(kv, "="); i > 0 {
+			if kv[i+1:] == "" {
+				pinnedParams[kv[:i]] = nil
+			} else {
+				pinnedParams[kv[:i]] = strings.Split(kv[i+1:], ",")
+			}
+		}
+	}
+}
+
+// bindParams: name -> value for the parameters of fn, under their current names and (taking precedence)
+// under the names the contract was written against.
+func bindParams(fn *ssa.Function, get func(i int, p *ssa.Parameter) (SV, bool), vars map[string]SV) {
+	for i, p := range fn.Params {
+		if v, ok := get(i, p); ok {
+			vars[p.Name()] = v
+		}
+	}
+	if pn, ok := pinnedParams[fnName(fn)]; ok && len(pn) == len(fn.Params) {
+		for i, p := range fn.Params {
+			if v, ok := get(i, p); ok && pn[i] != "" && pn[i] != "_" {
+				vars[pn[i]] = v
+			}
+		}
+	}
+}
+
 func firstN(xs []string, n int) []string {
 	if len(xs) > n {
 		return append(append([]string{}, xs[:n]...), fmt.Sprintf("... (%d more)", len(xs)-n))
@@ -639,6 +696,20 @@ func finishCheck(run *CheckRun, rebaseline bool) int {
 			lcs = append(lcs, fmt.Sprintf("%s=%d", f, lc[f]))
 		}
 		base["#loops"] = lcs
+		pm := map[string]string{}
+		for _, kv := range base["#params"] {
+			if i := strings.Index(kv, "="); i > 0 {
+				pm[kv[:i]] = kv[i+1:]
+			}
+		}
+		for f, ns := range run.ParamNames {
+			pm[f] = strings.Join(ns, ",")
+		}
+		var pms []string
+		for _, f := range sortedKeys(pm) {
+			pms = append(pms, f+"="+pm[f])
+		}
+		base["#params"] = pms
 		data, _ := json.MarshalIndent(base, "", " ")
 		os.WriteFile(baselineFile, data, 0o644)
 		fmt.Printf("baseline %s: %d obligations proved, %d failing\n", prop, len(names), len(run.Results)-len(names))
